@@ -107,7 +107,7 @@ def field_map(line):
 # ----------------------------------------------------------------------------------------------- C12 streams
 
 def gourdon_ops(rng, quick):
-    n = 700 if quick else 12000
+    n = 2500 if quick else 25000
     ops = []
     for x in xs_for_params(rng, n):
         reps = 2 if quick else 3
@@ -118,7 +118,7 @@ def gourdon_ops(rng, quick):
             if x <= I64_MAX and rng.random() < 0.7:
                 ops.append("gparams 64 %d %d %d %d" % (x, ay, az, t))
     # the maxX boundary: overrides (x around get_max_x(alpha_y)) and default tuning
-    for _ in range(60 if quick else 2000):
+    for _ in range(200 if quick else 3000):
         aym = rng.choice((1000, 1001, 1500, 2000, 5000, rng.randint(1000, 400000), rng.randint(1000, 3000)))
         mx = max_x_of(aym / 1000.0)
         for d in (-2, -1, 0, 1, 2, rng.randint(3, 10 ** 6), -rng.randint(3, 10 ** 6), mx // 10 ** 9, -(mx // 10 ** 9)):
@@ -181,7 +181,7 @@ def gourdon_stream(ctx):
 def dr_stream(ctx):
     rng = ctx.rng
     ops = []
-    for x in xs_for_params(rng, 500 if ctx.quick else 10000):
+    for x in xs_for_params(rng, 2000 if ctx.quick else 20000):
         for _ in range(2):
             al = alpha_grid(rng, x)
             t = rng.choice((1, 2, 16, 1000, 0))
@@ -294,7 +294,7 @@ def alphas_stream(ctx):
     """the tuning factors themselves: real get_alpha_* against the model's binary64 computation (log, clamps, truncate3)"""
     rng = ctx.rng
     ops = []
-    for x in [1, 2, 3] + xs_for_params(rng, 600 if ctx.quick else 20000):
+    for x in [1, 2, 3] + xs_for_params(rng, 3000 if ctx.quick else 50000):
         ops.append("alphas %d %d %d %d" % (x, alpha_grid(rng, x), alpha_grid(rng, x), alpha_grid(rng, x)))
         if rng.random() < 0.3:
             ops.append("alphas %d -1 -1 -1" % x)
@@ -313,7 +313,7 @@ def maxx_default_stream(ctx):
     `110 <= default alpha_y(x)` for 2^93 - 2^54 < x <= 10^31 and `MaxXNear` are evaluated on the real doubles"""
     rng = ctx.rng
     xs = set([10 ** 27, 10 ** 31, 10 ** 31 - 1, 2 ** 93, 2 ** 93 - 2 ** 54, 2 ** 93 - 2 ** 54 + 1, 2 ** 93 + 1, 2 ** 92])
-    xs.update(log_uniform(rng, 10 ** 27, 10 ** 31, 3000 if ctx.quick else 10 ** 5))
+    xs.update(log_uniform(rng, 10 ** 27, 10 ** 31, 10000 if ctx.quick else 10 ** 6))
     xs.update(log_uniform(rng, 2, 10 ** 27, 300 if ctx.quick else 10 ** 4))
     xs.update(transitions(rng, 10 ** 27, 10 ** 31, 200 if ctx.quick else 5000))
     ops = ["gparams 128 %d -1 -1 1" % x for x in sorted(xs) if x <= 10 ** 31]
@@ -337,8 +337,81 @@ def maxx_default_stream(ctx):
 
 def c12_streams(ctx):
     return [gourdon_stream(ctx), dr_stream(ctx),
-            real_run_stream(ctx, 250 if ctx.quick else 4000, 60 if ctx.quick else 600),
+            real_run_stream(ctx, 1200 if ctx.quick else 12000, 150 if ctx.quick else 1500),
             alphas_stream(ctx), maxx_default_stream(ctx)]
+
+
+# ----------------------------------------------------------------------------------------------- witness search
+
+def property_monitor(op, impl):
+    """The property itself (ordering / magnitude of the parameters the REAL code derived), in exact integer arithmetic.
+    Returns a description of the violated clause, or None."""
+    p = op.split()
+    try:
+        if p[0] == "gvars":
+            vals = impl.split()
+            if len(vals) != 4:
+                return None
+            x = int(p[2])
+            y, z, k, xs = map(int, vals)
+        elif p[0] == "gparams":
+            f = field_map(impl)
+            if f.get("ok") != "1" or "xstar" not in f:
+                return None
+            x = int(p[2])
+            y, z, k, xs = int(f["y"]), int(f["z"]), int(f["k"]), int(f["xstar"])
+        elif p[0] in ("dvars", "dparams"):
+            if p[0] == "dvars":
+                vals = impl.split()
+                if len(vals) != 3:
+                    return None
+                y, z, c = map(int, vals)
+            else:
+                f = field_map(impl)
+                if f.get("ok") != "1" or "c" not in f:
+                    return None
+                y, z, c = int(f["y"]), int(f["z"]), int(f["c"])
+            x = int(p[2])
+            x13 = gen.iroot(3, x)
+            if not (1 <= x13 <= y and z == x // y and 1 <= z < 2 ** 63 and c <= 8):
+                return "Deleglise-Rivat: 1 <= x13 <= y, z = x / y < 2^63, c <= 8"
+            if x < 2 ** 106 and not (y * y <= x):
+                return "Deleglise-Rivat: y <= sqrt(x)"
+            return None
+        else:
+            return None
+    except ValueError:
+        return None
+    if x < 2:
+        return None
+    x13, sq, r4 = gen.iroot(3, x), gen.isqrt(x), gen.iroot(4, x)
+    if not (1 <= xs <= y <= z and k == gen.get_k(x) and k <= 8 and x // y < 2 ** 63 and xs <= max(1, gen.isqrt(x // y))):
+        return "Gourdon: 1 <= x_star <= y <= z, k = get_k(x) <= 8, x / y < 2^63, x_star <= max(1, sqrt(x / y))"
+    if x >= 64 and not (x13 < y < sq and z < sq and r4 <= xs and x < (xs + 1) ** 4 and x < (xs + 1) * y * y):
+        return "Gourdon (x >= 64): x^(1/3) < y < sqrt(x), z < sqrt(x), x^(1/4) <= x_star, x < (x_star+1)^4, x < (x_star+1) y^2"
+    return None
+
+
+def params_search(ctx, proof_broken, bad, dis):
+    """disagreements of the parameter streams whose REAL values violate the property are failing inputs; the rest goes
+    to the default search"""
+    from . import runner
+    rest, seen = [], 0
+    for d in dis:
+        why = None
+        if d.get("stream", "").startswith("params_") and not d.get("crash") and not d.get("model_crash"):
+            why = property_monitor(d.get("op", ""), d.get("impl", ""))
+        if why is None:
+            rest.append(d)
+            continue
+        if seen < 5:
+            runner.emit_violation(ctx, "property", "the parameters derived by the real code violate: " + why,
+                                  dict(failing_input=d["op"], expected=d.get("model"), observed=d.get("impl"), stream=d["stream"],
+                                       key="%s:%s" % (d["stream"], d["op"].replace(" ", "_")),
+                                       replay_hint="echo '%s' | <cache>/rel/pcharness" % d["op"]))
+        seen += 1
+    runner.default_search(ctx, proof_broken, bad, rest)
+    return True
 
 
 # ----------------------------------------------------------------------------------------------- C11 streams
@@ -348,7 +421,7 @@ def fastdiv_stream(ctx):
     `div` instruction is executed in a child (SIGFPE = TRAP)"""
     rng = ctx.rng
     ops = []
-    n = 150 if ctx.quick else 3000
+    n = 400 if ctx.quick else 5000
     for _ in range(n):
         d = rng.choice((1, 2, 3, 2 ** 32 - 1, 2 ** 32, 2 ** 63, 2 ** 64 - 1, rng.getrandbits(rng.randint(1, 64)) | 1))
         for x in (d * 2 ** 64 - 1, d * 2 ** 64, d * 2 ** 64 + rng.randint(0, d), d * (2 ** 64 - 1) + d - 1, rng.getrandbits(127),
@@ -385,7 +458,7 @@ def wide_vs_narrow_params(ctx):
     """for x < 2^63 the 64-bit and the 128-bit entry point derive the same parameters"""
     rng = ctx.rng
     ops = []
-    for x in xs_for_params(rng, 300 if ctx.quick else 6000, hi=I64_MAX):
+    for x in xs_for_params(rng, 1500 if ctx.quick else 20000, hi=I64_MAX):
         ay, az, al = alpha_grid(rng, x), alpha_grid(rng, x), alpha_grid(rng, x)
         ops.append("gparams 64 %d %d %d 8" % (x, ay, az))
         ops.append("gparams 128 %d %d %d 8" % (x, ay, az))
@@ -412,4 +485,4 @@ def c11_streams(ctx):
 # ----------------------------------------------------------------------------------------------- C04 stream
 
 def c04_streams(ctx):
-    return [real_run_stream(ctx, 150 if ctx.quick else 3000, 40 if ctx.quick else 400, name="params_real_run_alpha")]
+    return [real_run_stream(ctx, 500 if ctx.quick else 6000, 80 if ctx.quick else 800, name="params_real_run_alpha")]
